@@ -20,6 +20,18 @@ static SAMPLE: Mutex<Option<String>> = Mutex::new(None);
 
 pub const EXIT_VIOLATION: i32 = 3;
 
+/// set while the harness runs code that is documented to panic (attach while attached, ...)
+/// (a depth, not a flag: several loom threads can be inside such a region at once)
+static EXPECT_PANIC: std::sync::atomic::AtomicUsize = std::sync::atomic::AtomicUsize::new(0);
+
+/// Runs `f`, returning Err if it panicked; such a panic is an expected outcome, not a verdict.
+pub fn catching<T>(f: impl FnOnce() -> T) -> Result<T, ()> {
+    EXPECT_PANIC.fetch_add(1, Ordering::SeqCst);
+    let r = std::panic::catch_unwind(std::panic::AssertUnwindSafe(f));
+    EXPECT_PANIC.fetch_sub(1, Ordering::SeqCst);
+    r.map_err(|_| ())
+}
+
 #[derive(Clone, Debug)]
 pub struct ModelCfg {
     pub preemption_bound: Option<usize>,
@@ -92,6 +104,9 @@ pub fn run_model(cfg: &ModelCfg, context: Value, stop_at: Option<u64>, body: imp
     // under test may panic too. Either is a verdict about the current execution: record it.
     let default_hook = std::panic::take_hook();
     std::panic::set_hook(Box::new(move |info| {
+        if EXPECT_PANIC.load(Ordering::SeqCst) > 0 {
+            return; // a documented panic, caught by the harness
+        }
         let msg = if let Some(s) = info.payload().downcast_ref::<&str>() {
             s.to_string()
         } else if let Some(s) = info.payload().downcast_ref::<String>() {
